@@ -22,6 +22,7 @@ All rights reserved.
 
 #include <functional>
 #include <cstdio> // for printf
+#include <cstdlib> // for strtol
 
 using namespace sim::asio;
 using namespace sim::asio::ip;
@@ -164,9 +165,17 @@ namespace sim
 		if (host.size() >= 2 && host.front() == '[' && host.back() == ']')
 			host = host.substr(1, host.size() - 2);
 
-		int const port = host_end == std::string::npos || host_end <= 7 ? 80
-			: atoi(req.req.substr(host_end + 1, path_start).c_str());
-		assert(port >= 0 && port <= 0xffff);
+		// strtol() saturates where atoi() is undefined, and a number that is no
+		// port makes the request malformed rather than naming port 65535
+		long const port_nr = host_end == std::string::npos || host_end <= 7 ? 80
+			: std::strtol(req.req.substr(host_end + 1, path_start).c_str(), nullptr, 10);
+		if (port_nr < 0 || port_nr > 0xffff)
+		{
+			std::printf("http_proxy::forward_request: invalid port in: %s\n"
+				, req.req.c_str());
+			throw std::runtime_error("invalid request");
+		}
+		int const port = int(port_nr);
 
 		bool found_host = false;
 		for (auto const& h : req.headers)
